@@ -33,7 +33,11 @@ Slots == <<
   [n |-> "glossary",  t |-> "x[?term]\n\n[?term]: @\n",               v |-> FALSE],
   [n |-> "abbrev",    t |-> "[>ab]: @\n\nab here\n",                  v |-> TRUE],      \* an abbreviation's expansion is taken literally
   [n |-> "inlinenote", t |-> "x[^@] y\n",                             v |-> FALSE],
-  [n |-> "emph",      t |-> "*@*\n",                                  v |-> FALSE] >>
+  [n |-> "emph",      t |-> "*@*\n",                                  v |-> FALSE],
+  \* addresses and image titles (an address cannot contain blanks: the run is written without them -- see Run)
+  [n |-> "imgtitle",  t |-> "![a](i.png \"@\")\n",                    v |-> TRUE],
+  [n |-> "url",       t |-> "[t](http://u.rl/?q=@)\n",                v |-> TRUE],
+  [n |-> "imgurl",    t |-> "![a](i.png?q=@)\n",                      v |-> TRUE] >>
 \* ---- characters: name, Markdown spelling in text, in verbatim -------------------------------------------------------
 Chars == <<
   [n |-> "amp", c |-> "&", s |-> "&"], [n |-> "lt", c |-> "<", s |-> "<"], [n |-> "gt", c |-> ">", s |-> ">"], [n |-> "quot", c |-> "\"", s |-> "\""],
@@ -43,8 +47,10 @@ Chars == <<
 Mark == "QZQ"
 \* the text run put into a hole: marker, space, character, space, marker (spaces keep the character out of Markdown's way)
 Run(ci, verbatim) == Mark \o " " \o (IF verbatim THEN Chars[ci].c ELSE Chars[ci].s) \o " " \o Mark
+TightRun(ci) == Mark \o Chars[ci].c \o Mark
+Tight(slot) == slot \in {"url", "imgurl"}
 Fill(t, r) == LET i == CHOOSE k \in 1 .. Len(t) : SubSeq(t, k, k) = "@" IN SubSeq(t, 1, i - 1) \o r \o SubSeq(t, i + 1, Len(t))
-DocOf(si, ci) == Fill(Slots[si].t, Run(ci, Slots[si].v))
+DocOf(si, ci) == Fill(Slots[si].t, IF Tight(Slots[si].n) THEN TightRun(ci) ELSE Run(ci, Slots[si].v))
 
 \* ---- escaping: the forms under which a character may appear in the raw output of a target -----------------------------
 XmlEsc(c) == CASE c = "&" -> {"&amp;", "&#38;"} [] c = "<" -> {"&lt;", "&#60;"} [] c = ">" -> {"&gt;", "&#62;"} [] c = "\"" -> {"&quot;", "&#34;"} [] c = "'" -> {"'", "&apos;", "&#39;"} [] OTHER -> {c}
@@ -54,9 +60,9 @@ TexEsc(c) == CASE c = "\\" -> {"\\textbackslash{}", "\\textbackslash "} [] c = "
                [] c = "|" -> {"|", "\\textbar{}"} [] c = "\"" -> {"\"", "''", "``"} [] c = "<" -> {"<", "$<$"} [] c = ">" -> {">", "$>$"} [] OTHER -> {c}
 \* verbatim environments of LaTeX reproduce the source characters themselves
 Allowed(fmt, slot, c) ==
-  CASE fmt \in {"html", "fodt"} -> (IF slot \in {"title", "alt"} THEN XmlAttrEsc(c) \cup XmlEsc(c) ELSE XmlEsc(c))
+  CASE fmt \in {"html", "fodt"} -> (IF slot \in {"title", "alt", "imgtitle", "url", "imgurl"} THEN XmlAttrEsc(c) \cup XmlEsc(c) ELSE XmlEsc(c))
     [] fmt = "opml" -> XmlAttrEsc(c) \cup {"\\" \o c}                                 \* source spans live in attributes
-    [] fmt \in {"latex", "beamer", "memoir"} -> (IF slot \in {"codeblock", "indented"} THEN {c} ELSE TexEsc(c))
+    [] fmt \in {"latex", "beamer", "memoir"} -> (IF slot \in {"codeblock", "indented"} THEN {c} ELSE IF slot \in {"url", "imgurl"} THEN TexEsc(c) \cup {c} ELSE TexEsc(c))   \* (\href and \includegraphics take the address as it is)
     [] OTHER -> {c}
 Reserved(fmt) == IF fmt \in {"latex", "beamer", "memoir"} THEN {"\\", "{", "}", "$", "%", "&", "#", "_", "^", "~"} ELSE {"&", "<", ">", "\""}
 
